@@ -34,6 +34,9 @@ P = {
  "C19": ("decision-table extraction over NewExtractor + value provenance (def-use) of the returned token",
          "NewExtractor's dispatch is extracted as a decision table (supported variables return an extractor, everything else a non-nil error); client.ip's token must be exactly the host result of an allow-listed host:port parser applied to req.RemoteAddr on its success edge (first-colon splitters are definite violations, other derivations UNDECIDED), request.host returns req.Host itself, request.header.X returns req.Header.Get(X) with X the suffix; amount is the constant 1 on success. Level 'other'.",
          "NOT decided: behaviour of net.SplitHostPort itself (stdlib, trusted). Trusted: go/ssa, analyser.", "3/C19"),
+ "C13": ("path pairing rules, edge-deletion reachability for the rollback trigger, expression normal form + dimension for the advertised delay, decision table of the rate error handler, must-lockset for the critical section",
+         "Structural necessary conditions of 'rejections cost nothing': debit paired with lastConsumed on every path and undone exactly by rollback; the set rolls back every bucket exactly on firstErr != nil || maxDelay > 0 and folds delays only from error-free buckets; over-burst returns an error before any debit; the advertised delay has normal form (tokens-available) x timePerToken; the limiter surfaces the bucket error first and the same delay as MaxRateError; the handler answers 429 with X-Retry-In = that delay unrounded, set before WriteHeader; consume and rollback of one request form one critical section under the limiter mutex. Level 'other'.",
+         "NOT decided: that waiting the advertised delay suffices, idle refill time (integer-division arithmetic over reachable states). Trusted: go/ssa, analyser.", "3/C13"),
 }
 
 NA = {}
